@@ -197,3 +197,27 @@ func doPub(q request) response {
 	}
 	return r
 }
+
+// consts: the constants and limit conversions of the implementation the model restates
+func doConsts() response {
+	ne, err := getNats()
+	if err != nil {
+		return response{Code: 103, Msg: err.Error()}
+	}
+	conn, err := nats.Connect(ne.url)
+	if err != nil {
+		return response{Code: 103, Msg: err.Error()}
+	}
+	defer conn.Close()
+	tr := frugal.NewFNatsTransport(conn, "c12.consts", "")
+	pub := frugal.NewNatsFPublisherTransport(conn)
+	sneg := frugal.NewFStompPublisherTransportFactoryBuilder(nil).WithMaxPublishSize(-5).Build().GetTransport()
+	spos := frugal.NewFStompPublisherTransportFactoryBuilder(nil).WithMaxPublishSize(77).Build().GetTransport()
+	return response{Consts: []uint64{
+		uint64(tr.GetRequestSizeLimit()), uint64(pub.GetPublishSizeLimit()),
+		uint64(frugal.TRANSPORT_EXCEPTION_REQUEST_TOO_LARGE), uint64(frugal.TRANSPORT_EXCEPTION_RESPONSE_TOO_LARGE),
+		uint64(frugal.APPLICATION_EXCEPTION_RESPONSE_TOO_LARGE),
+		uint64(sneg.GetPublishSizeLimit()) >> 32, uint64(sneg.GetPublishSizeLimit()) & 0xffffffff,
+		uint64(spos.GetPublishSizeLimit()),
+	}}
+}
